@@ -2,7 +2,6 @@
 //! the same arguments and returning a comparable result (used by C10 and C17).
 
 use crate::ctx::Ev;
-use crate::gen;
 use crate::model::{Class, Model};
 use crate::rng::Rng;
 use crate::tbl::{BinOp, Tbl};
@@ -175,7 +174,7 @@ pub fn run_op<T: Tbl>(ev: &Ev) -> Res {
             tabs(&v)
         }
         "hash-consistency" => {
-            use std::hash::{Hash, Hasher};
+            use std::hash::Hasher;
             let h = |t: &T| {
                 let mut s = std::collections::hash_map::DefaultHasher::new();
                 t.hash(&mut s);
